@@ -505,7 +505,7 @@ def budget(tier):
     if tier == 'quick':
         return {'runs': 560, 'wall': 75, 'chunk': 4, 'selftest': 6, 'minimise_s': 60,
                 'canary_runs': 800, 'canary_wall': 90}
-    return {'runs': 30000, 'wall': 1200, 'chunk': 8, 'selftest': 16, 'minimise_s': 180,
+    return {'runs': 30000, 'wall': 900, 'chunk': 8, 'selftest': 16, 'minimise_s': 180,
             'canary_runs': 800, 'canary_wall': 90}
 
 
